@@ -92,8 +92,10 @@ var (
 	assetID  = map[string]bc.AssetID{}
 	voteKey  = map[string][]byte{"": nil}
 	base     = time.Now().Add(1000 * time.Hour)
-	sharedDB dbm.DB
 	unconf   []*account.UTXO
+	confRec  = map[string][]byte{}        // name -> JSON record of the outputs listed as confirmed at the start
+	utxoOf   = map[string]*account.UTXO{} // name -> the output
+	dbOf     sync.Map                     // keeper -> its wallet DB
 )
 
 func assetOf(n string) *bc.AssetID {
@@ -142,7 +144,6 @@ func loadUniverse(path string) {
 	if !found {
 		vh.Fatal("no universe document in %s", path)
 	}
-	sharedDB = dbm.NewMemDB()
 	names := make([]string, 0, len(uni.Universe))
 	for n := range uni.Universe {
 		names = append(names, n)
@@ -153,12 +154,13 @@ func loadUniverse(path string) {
 		u := &account.UTXO{OutputID: idOf(n), SourceID: bc.NewHash([32]byte{0x55, byte(len(n))}), AssetID: *assetOf(s.Asset),
 			Amount: s.Amt * scale, ControlProgram: []byte{0x51}, Vote: voteOf(s.Vote), AccountID: s.Acct,
 			Address: "addr-" + n, ValidHeight: s.Vh}
+		utxoOf[n] = u
 		if s.Where == "conf" || s.Where == "both" {
 			b, err := json.Marshal(u)
 			if err != nil {
 				vh.Fatal("%v", err)
 			}
-			sharedDB.Set(account.StandardUTXOKey(u.OutputID), b)
+			confRec[n] = b
 		}
 		if s.Where == "unconf" || s.Where == "both" {
 			cp := *u
@@ -168,8 +170,13 @@ func loadUniverse(path string) {
 }
 
 func newKeeper() *account.VerifKeeper {
-	k := account.NewVerifKeeper(func() uint64 { return uni.Height }, sharedDB)
+	db := dbm.NewMemDB() // every keeper has its own wallet DB: the listing of an output moves during a trace
+	for n, b := range confRec {
+		db.Set(account.StandardUTXOKey(idOf(n)), b)
+	}
+	k := account.NewVerifKeeper(func() uint64 { return uni.Height }, db)
 	k.AddUnconfirmed(unconf)
+	dbOf.Store(k, db)
 	return k
 }
 
@@ -233,6 +240,19 @@ func exec(k *account.VerifKeeper, c call, e *ev) {
 		k.Cancel(c.Rid)
 	case "expire":
 		k.ExpireAt(base.Add(time.Duration(c.T)*time.Hour - 30*time.Minute))
+	case "addunc": // the pool announces the transaction that creates the output
+		cp := *utxoOf[c.U]
+		k.AddUnconfirmed([]*account.UTXO{&cp})
+	case "rmunc": // the pool's removal event (sent when the transaction was confirmed, too)
+		h := idOf(c.U)
+		k.RemoveUnconfirmed([]*bc.Hash{&h})
+	case "confirm": // the wallet attaches the block: the confirmed record is written
+		b, err := json.Marshal(utxoOf[c.U])
+		if err != nil {
+			vh.Fatal("%v", err)
+		}
+		db, _ := dbOf.Load(k)
+		db.(dbm.DB).Set(account.StandardUTXOKey(idOf(c.U)), b)
 	default:
 		vh.Fatal("unknown op %q", c.Op)
 	}
@@ -312,6 +332,7 @@ func seqWorker(path, outprefix string, k, nchild int) {
 			events++
 			ops[c.Op+":"+e.Err]++
 		}
+		dbOf.Delete(kp)
 		traces++
 		return nil
 	})
